@@ -47,6 +47,14 @@ func Generate(t *tape.Tape, o GenOpts) *World {
 	defer t.End()
 	w := generators[f](t, o)
 	w.Generated = true
+	if w.JSPoisonIdx > 0 && len(w.LRecs) > 0 && len(w.RecTexts) == len(w.LRecs) && w.Render != nil && !o.OwnDataOnly && t.Chance("gen.boom-record", 1, 3) {
+		// one record makes the "kjs" script throw: a per-record failure raised inside the javascript runtime
+		k := t.Intn("gen.boom-record.idx", len(w.LRecs))
+		w.LRecs[k].Vals[w.JSPoisonIdx-1] = BoomValue
+		w.RecTexts[k] = w.Render(w.LRecs[k])
+		w.Assemble()
+		w.SetTag("js.record-makes-script-throw", "1")
+	}
 	return w
 }
 
